@@ -22,7 +22,7 @@ class C14(Check):
         "Q3": "time-course form: protocol index shifted to absolute time, t_start added to the requested points only under the "
               "relative flag, outer join with the step boundaries, half-open selection (t_start, t_end] then t_start := t_end",
     }
-    floors = {"Q1": 3, "Q2": 6, "Q3": 4}
+    floors = {"Q1": 3, "Q2": 8, "Q3": 4}
     decided = [
         "step i's values are applied before, and only before, simulating step i's interval",
         "step intervals are (cumulative end of step i-1, cumulative end of step i] in absolute time, also when continuing an earlier run",
@@ -84,6 +84,11 @@ class C14(Check):
         if len(loops) != 1:
             raise AnalysisError(f"{q}: protocol loop not recognised")
         loop = loops[0]
+        if norm(loop.iter) == "protocol.iterrows()":
+            self.holds("Q2", SIM, q, "every-step-in-order", loop, "iterates protocol.iterrows(): every step, in protocol order")
+        else:
+            self.violated("Q2", SIM, q, "every-step-in-order", loop, f"the loop iterates `{norm(loop.iter)}`: steps are skipped or reordered",
+                          witness="the first (or last) step of the protocol is never simulated")
         row = loop.target.elts[1].id if isinstance(loop.target, ast.Tuple) else None
         upd = [i for i, s in enumerate(loop.body) if isinstance(s, ast.Expr) and norm(s.value) == f"self.model.update_parameters({row}.to_dict())"]
         simc = [i for i, s in enumerate(loop.body) if isinstance(s, ast.Expr) and norm(s.value).startswith(("self.simulate(", "self.simulate_time_course("))]
@@ -159,6 +164,7 @@ class C14(Check):
             Variant("no-index-shift", SIM, PT, "(cast(pd.TimedeltaIndex, protocol.index) + pd.Timedelta(t_start, unit='s')).total_seconds()",
                     "cast(pd.TimedeltaIndex, protocol.index).total_seconds()", expect="Q2|", quick=True),
             Variant("seconds-component", SIM, P, "t_start + t_end.total_seconds()", "t_start + t_end.seconds", expect="Q2|", quick=True),
+            Variant("protocol-skips-first-step", SIM, P, "for t_end, pars in protocol.iterrows():", "for t_end, pars in protocol.iloc[1:].iterrows():", expect="Q2|"),
             Variant("protocol-advances-t_start", SIM, P, "        if self.variables is None:\n            break",
                     "        t_start = t_start + t_end.total_seconds()\n        if self.variables is None:\n            break", expect="Q2|"),
             Variant("relative-always", SIM, PT, "    if time_points_as_relative:\n        time_points += t_start", "    time_points += t_start", expect="Q"),
